@@ -187,7 +187,15 @@ impl Real {
 					// sin(-x) == -sin(x)
 					return Ok(-Self::sin(-s, int)?);
 				}
-				if let Ok(integer) = n.clone().mul(&6.into(), int)?.try_as_usize(int) {
+				// 6n mod 12 decides the value: reduce first, so that multiples of
+				// pi/6 of any size are recognised (modulo fails unless 6n is a
+				// non-negative integer)
+				if let Ok(integer) = n
+					.clone()
+					.mul(&6.into(), int)?
+					.modulo(12.into(), int)
+					.and_then(|r| r.try_as_usize(int))
+				{
 					// values from https://en.wikipedia.org/wiki/Exact_trigonometric_values
 					if integer % 6 == 0 {
 						return Ok(Exact::new(Self::from(0), true));
